@@ -211,7 +211,7 @@ func (r *iterRun) step(o Op) *Viol {
 // iterGraphCheck explores the complete state graph of a fresh iterator over an
 // unmodified container: state = canonical dump of iterator (+container through
 // its pointer), successor = replay of the iterator path on a fresh iterator + 1 op.
-func iterGraphCheck(newIter func() *IterDyn, seq []Pair, opts CanonOpts, fullN int, props []string, st *Stats) *Viol {
+func iterGraphCheck(newIter func() *IterDyn, contIDs map[ptrKey]int, seq []Pair, opts CanonOpts, fullN int, props []string, st *Stats) *Viol {
 	type rec struct {
 		parent int
 		op     Op
@@ -221,7 +221,9 @@ func iterGraphCheck(newIter func() *IterDyn, seq []Pair, opts CanonOpts, fullN i
 		return nil
 	}
 	ops := iterOps(len(seq), it0.Rev, fullN)
-	key := func(r *iterRun) string { return Canon(opts, r.it.Obj) + fmt.Sprintf("#%d", r.pos) }
+	// iterator state = its own fields + pointers into the (unmodified) container, fingerprinted
+	// relative to the container's pointer numbering
+	key := func(r *iterRun) string { return CanonRel(opts, contIDs, r.it.Obj) + fmt.Sprintf("#%d", r.pos) }
 	recs := []rec{{-1, Op{}}}
 	root := &iterRun{it: it0, pos: -1, seq: seq, props: props}
 	seen := map[string]int{key(root): 0}
